@@ -20,6 +20,7 @@ import (
 	"github.com/bufbuild/verif/modgen"
 	"io"
 	"os"
+	"os/exec"
 	"path/filepath"
 	"sort"
 	"strings"
@@ -884,6 +885,9 @@ func (m *sim) stepGetOpen(v view) {
 			m.violate("get-matches-model", site, "Get(%q) on %s failed with %v but the model holds %d bytes", p, v.label(), err, len(c))
 			return
 		}
+		if roc.Path() != norm {
+			m.violate("get-matches-model", site+"|reported-path-not-normal", "Get(%q) on %s reported the path as %q: the object's path is %q in every spelling", p, v.label(), roc.Path(), norm)
+		}
 		h := &getHandle{v: v, roc: roc, expect: c}
 		if len(v.roots()) == 1 {
 			h.b = v.roots()[0]
@@ -971,6 +975,9 @@ func (m *sim) stepStat(v view) {
 			m.violate("stat-matches-model", "stat", "Stat(%q) on %s failed with %v but the model has the object", p, v.label(), err)
 		} else if n2, _ := resolve(info.Path()); n2 != norm {
 			m.violate("stat-matches-model", "stat", "Stat(%q) on %s reported path %q", p, v.label(), info.Path())
+		} else if info.Path() != norm {
+			// storage.ObjectInfo: "This path will always be normalized, validated, and non-empty."
+			m.violate("stat-matches-model", "stat|reported-path-not-normal", "Stat(%q) on %s reported the path as %q: the object's path is %q in every spelling", p, v.label(), info.Path(), norm)
 		}
 	}
 }
@@ -2042,6 +2049,79 @@ func (m *sim) stepCLIPath() {
 		}
 	}
 	m.s.Probe("cli-path-values")
+	// the same through an archive input with a sub-directory: --path values are relative to the
+	// sub-directory and must stay inside it, also when they leave it and come back ("../a/a.proto")
+	// or name its neighbour ("../b/b.proto")
+	q := p
+	if k := m.tp.Draw("clipath-archive", 4); k > 0 {
+		q = []string{"", "../a/a.proto", "../b/b.proto", "../../pkg/a/a.proto"}[k]
+	}
+	_, escQ := resolve(q)
+	var so, se bytes.Buffer
+	container = app.NewContainer(env, strings.NewReader(""), &so, &se, "buf", "build", filepath.Join(m.root, "cliws.tar")+"#subdir=pkg/a", "--path", q, "-o", out)
+	err = appcmd.Run(m.ctx, container, bufcli.NewRootCommand("buf"))
+	_ = os.Remove(out)
+	m.s.Event("cli archive --path %q -> err=%v", q, err != nil)
+	if escQ {
+		m.hostileSeen["cli-archive-path:"+q] = struct{}{}
+		if err == nil {
+			m.violate("escape-rejected", "cli-path|archive-subdir", "buf build cliws.tar#subdir=pkg/a accepted --path %q although it leaves the sub-directory", q)
+		}
+	}
+	if m.tp.Draw("clipath-git", 6) == 5 {
+		m.gitInputWithLinks(env)
+	}
+}
+
+// gitInputWithLinks: a git repository whose tree contains symbolic links to a file and to a directory
+// OUTSIDE the repository, given to the command as a git input: the links are not followed - nothing
+// from outside the clone is listed or compiled. (Skipped where there is no git binary.)
+func (m *sim) gitInputWithLinks(env map[string]string) {
+	gitPath, err := exec.LookPath("git")
+	if err != nil {
+		return
+	}
+	repo := filepath.Join(m.root, "clirepo")
+	if _, err := os.Stat(repo); err != nil {
+		_ = os.MkdirAll(filepath.Join(repo, "proto"), 0o755)
+		_ = os.MkdirAll(filepath.Join(m.root, "secretdir"), 0o755)
+		_ = os.WriteFile(filepath.Join(m.root, "secretdir", "keys.proto"), []byte("syntax = \"proto3\";\npackage secretdir;\nmessage TopSecretDir {}\n"), 0o644)
+		_ = os.WriteFile(filepath.Join(repo, "buf.yaml"), []byte("version: v2\n"), 0o644)
+		_ = os.WriteFile(filepath.Join(repo, "proto", "a.proto"), []byte("syntax = \"proto3\";\npackage a;\nmessage A {}\n"), 0o644)
+		// (absolute targets: the clone lives elsewhere)
+		_ = os.Symlink(filepath.Join(m.root, "secret.proto"), filepath.Join(repo, "proto", "leak.proto"))
+		_ = os.Symlink(filepath.Join(m.root, "secretdir"), filepath.Join(repo, "proto", "leakdir"))
+		for _, args := range [][]string{{"init", "-q", "-b", "main", "."}, {"add", "-A"}, {"-c", "user.email=sim@example.com", "-c", "user.name=sim", "commit", "-q", "-m", "init"}} {
+			cmd := exec.Command(gitPath, args...)
+			cmd.Dir = repo
+			cmd.Env = []string{"HOME=" + filepath.Join(m.root, "clihome"), "PATH=" + filepath.Dir(gitPath) + ":/usr/bin:/bin", "GIT_CONFIG_NOSYSTEM=1"}
+			if out, err := cmd.CombinedOutput(); err != nil {
+				m.s.Event("git %v failed: %v %s", args, err, out)
+				_ = os.RemoveAll(repo)
+				m.sentinel = m.outside()
+				return
+			}
+		}
+		// (the repository is part of the surroundings from now on)
+		m.sentinel = m.outside()
+	}
+	genv := map[string]string{}
+	for k, v := range env {
+		genv[k] = v
+	}
+	genv["PATH"] = filepath.Dir(gitPath) + ":/usr/bin:/bin"
+	var so, se bytes.Buffer
+	container := app.NewContainer(genv, strings.NewReader(""), &so, &se, "buf", "ls-files", filepath.Join(repo, ".git")+"#branch=main")
+	err = appcmd.Run(m.ctx, container, bufcli.NewRootCommand("buf"))
+	m.s.Event("cli git input -> err=%v", err != nil)
+	if err != nil || !strings.Contains(so.String(), "a.proto") {
+		m.s.Probe("git-input-not-usable")
+		return
+	}
+	if strings.Contains(so.String(), "leak") {
+		m.violate("nothing-outside-root-read", "cli-git-input|link", "buf ls-files <repository>/.git#branch=main lists files that exist only OUTSIDE the repository, behind symbolic links of its tree: %s", strings.ReplaceAll(so.String(), "\n", " "))
+	}
+	m.s.Probe("git-input-with-links")
 }
 
 // stepPutThroughDirLink: a put whose parent directory is a link to a directory outside the root of a
@@ -2355,7 +2435,8 @@ func (m *sim) outside() map[string]string {
 	out := map[string]string{}
 	for k, c := range st {
 		// (what a followed link leads to belongs to the bucket that follows it)
-		inside := strings.HasPrefix(k, "linktargets/")
+		// (and the command line's own cache and home directories belong to the command)
+		inside := strings.HasPrefix(k, "linktargets/") || strings.HasPrefix(k, "clicache/") || strings.HasPrefix(k, "clihome/")
 		for _, b := range m.bases {
 			if b.dir != "" {
 				rel, _ := filepath.Rel(m.root, b.dir)
@@ -2428,6 +2509,20 @@ func Run(tp *tape.Tape, env *engine.Env) *engine.Outcome {
 	_ = os.WriteFile(filepath.Join(m.root, "cliws", "buf.yaml"), []byte("version: v2\n"), 0o644)
 	_ = os.WriteFile(filepath.Join(m.root, "cliws", "a", "a.proto"), []byte("syntax = \"proto3\";\npackage a;\nmessage A {}\n"), 0o644)
 	_ = os.WriteFile(filepath.Join(m.root, "secret.proto"), []byte("syntax = \"proto3\";\npackage secret;\nmessage S {}\n"), 0o644)
+	// and the same kind of workspace inside an archive, two directories deep: pkg/a and pkg/b are modules
+	{
+		var buf bytes.Buffer
+		tw := tar.NewWriter(&buf)
+		for _, f := range [][2]string{
+			{"pkg/a/buf.yaml", "version: v2\n"}, {"pkg/a/a.proto", "syntax = \"proto3\";\npackage a;\nmessage A {}\n"},
+			{"pkg/b/buf.yaml", "version: v2\n"}, {"pkg/b/b.proto", "syntax = \"proto3\";\npackage b;\nmessage B {}\n"},
+		} {
+			_ = tw.WriteHeader(&tar.Header{Typeflag: tar.TypeReg, Name: f[0], Size: int64(len(f[1])), Mode: 0o644})
+			_, _ = tw.Write([]byte(f[1]))
+		}
+		_ = tw.Close()
+		_ = os.WriteFile(filepath.Join(m.root, "cliws.tar"), buf.Bytes(), 0o644)
+	}
 	m.sentinel = m.outside()
 	var labels []string
 	for _, v := range m.views {
